@@ -1,5 +1,6 @@
 use crate::engine::PropDef;
 
+pub mod analysis;
 pub mod api;
 pub mod c28;
 pub mod cal;
@@ -9,9 +10,11 @@ pub mod handler;
 pub mod hist;
 pub mod lit;
 pub mod parse;
+pub mod prog;
 pub mod sched;
+pub mod seq;
 
-pub static ALL: &[&PropDef] = &[&parse::C01, &parse::C02, &expr::C03, &api::C04, &lit::C05, &lit::C06, &lit::C07, &hist::C08, &hist::C09, &hist::C10, &hist::C11, &expr::C12, &expr::C13, &gates::C14, &gates::C15, &cal::C16, &cal::C17, &cal::C18, &cal::C19, &sched::C22, &sched::C23, &sched::C24, &sched::C25, &handler::C26, &handler::C27, &c28::DEF, &handler::C31];
+pub static ALL: &[&PropDef] = &[&parse::C01, &parse::C02, &expr::C03, &api::C04, &lit::C05, &lit::C06, &lit::C07, &hist::C08, &hist::C09, &hist::C10, &hist::C11, &expr::C12, &expr::C13, &gates::C14, &gates::C15, &cal::C16, &cal::C17, &cal::C18, &cal::C19, &seq::C20, &seq::C21, &sched::C22, &sched::C23, &sched::C24, &sched::C25, &handler::C26, &handler::C27, &c28::DEF, &analysis::C29, &analysis::C30, &handler::C31, &analysis::C32, &prog::C33, &prog::C34, &prog::C35];
 
 pub fn extra_command(cmd: &str, args: &[String]) -> Option<i32> {
     match cmd {
